@@ -306,9 +306,10 @@ func Group(ec *gen.ExecCase, whole Real, mode string) ([][]Posting, bool) {
 }
 
 // GroupPrefix is Group for an execution that failed: the postings of the statements of the
-// longest prefix of the script that still executes (each obtained by a prefix run). ok is
-// false when the prefix runs are not consistent with each other.
-func GroupPrefix(ec *gen.ExecCase, mode string) ([][]Posting, bool) {
+// longest prefix of the script that still executes (each obtained by a prefix run), and the
+// outcome of the shortest prefix that fails (the whole script at the latest). ok is false
+// when the prefix runs are not consistent with each other.
+func GroupPrefix(ec *gen.ExecCase, whole Real, mode string) ([][]Posting, Real, bool) {
 	n := len(ec.Script.Stmts)
 	var out [][]Posting
 	prev := []Posting{}
@@ -317,21 +318,21 @@ func GroupPrefix(ec *gen.ExecCase, mode string) ([][]Posting, bool) {
 		pc.Script = ec.Script.Prefix(k)
 		r, _ := Run(&pc, mode)
 		if !r.OK() {
-			break
+			return out, r, true
 		}
 		cur := r.Postings
 		if len(cur) < len(prev) {
-			return nil, false
+			return nil, whole, false
 		}
 		for i := range prev {
 			if prev[i].String() != cur[i].String() {
-				return nil, false
+				return nil, whole, false
 			}
 		}
 		out = append(out, cur[len(prev):])
 		prev = cur
 	}
-	return out, true
+	return out, whole, true
 }
 
 // Sums of a posting list.
